@@ -100,6 +100,12 @@ blocking `put` on a bounded queue while holding a lock its consumer needs would 
 does not show. -/
 theorem no_queue_waits : Bobo.Gen.Locks.queueWaits = [] := by decide
 
+/-- **no thread of the property's own roles waits for another thread to end while it holds a lock** (`Thread.join` /
+`Pool.join` under a lock: the joined thread may need that very lock, or a lock of a third thread that needs it, before it
+can end — a wait the lock graph does not show either).  The table is generated from the source along the call graph of
+every role's entry points. -/
+theorem no_join_under_lock : Bobo.Gen.Locks.joinWaits = [] := by decide
+
 /-- **methods are atomic steps**: every field of a lock-owning class that is written after its construction is read and
 written only with one of the object's own locks held, on every path from every thread role's entry point (the table of
 exceptions, generated from the source by following the call graph with the set of held locks, has one entry).  This is what
